@@ -346,6 +346,16 @@ void h_new (void)
 	if (!r && g_socket_calls == 1 && g_closes == 1) CANARY ("descriptor closed again after a later failure");
 	if (!r && g_socket_calls == 1 && g_closes == 0) CANARY ("socket() failed");
 }
+/* p_sys_close: exactly ONE close() per call, whatever it returns (Linux releases the descriptor even when close() reports
+ * EINTR, so a retry would close a number that may already belong to somebody else); the result is passed through */
+pint
+p_sys_close (pint fd)
+__CPROVER_requires (SOCK_INIT && fd == g_sock_fd && g_fd_live && fd >= 0)
+__CPROVER_assigns (SOCK_GHOSTS)
+__CPROVER_ensures (g_closes == 1)
+__CPROVER_ensures ((__CPROVER_return_value == 0) == !g_fd_live && (__CPROVER_return_value == 0 || __CPROVER_return_value == -1))
+;
+void h_sys_close (void) { pint fd; pint r = p_sys_close (fd); if (r == 0) CANARY ("closed"); else CANARY ("close failed"); }
 void h_close (void) { PSocket *s; PError **e; pboolean r = p_socket_close (s, e); if (r && g_closes == 1) CANARY ("closed"); if (r && g_closes == 0) CANARY ("already closed"); if (!r) CANARY ("close failed"); }
 void h_bind (void) { const PSocket *s; PSocketAddress *a; pboolean ar; PError **e; pboolean r = p_socket_bind (s, a, ar, e); if (r) CANARY ("bound"); if (!r && g_native == 0) CANARY ("closed"); if (!r && g_binds == 1) CANARY ("bind failed"); }
 void h_listen (void) { PSocket *s; PError **e; pboolean r = p_socket_listen (s, e); if (r) CANARY ("listening"); if (!r && g_native == 0) CANARY ("closed"); if (!r && g_native == 1) CANARY ("listen failed"); }
